@@ -674,7 +674,7 @@ def g_ty(ty, T):
     if ty[0] == 'ref':
         return '(TRef %d%%nat)' % ty[1]
     (mname, inner), = T._type_info.items()
-    return '(TArr %s %s)' % (g_ty(ty[1], inner), gtext(mname))
+    return '(TArr %s %s %s)' % (g_ty(ty[1], inner), gtext(T.get_namespace() or ''), gtext(mname))
 
 
 G_KIND = {'elem': 'KElem', 'attr': 'KAttr', 'data': 'KData'}
